@@ -1,6 +1,7 @@
 package main
 
 import (
+	"golang.org/x/tools/go/ssa"
 	"crypto/sha1"
 	"crypto/sha256"
 	"fmt"
@@ -731,4 +732,145 @@ func init() {
 		out = append(out, mk(start, len(bs)))
 		return Slice{A: out}
 	}
+}
+
+// ---- base58 (go-bk): Encode is an opaque injective function; Decode is its exact inverse on
+// encoded strings and the real algorithm on concrete strings.
+const b58Alphabet = "123456789ABCDEFGHJKLMNPQRSTUVWXYZabcdefghijkmnopqrstuvwxyz"
+
+func b58DecodeConcrete(s string) []byte {
+	// mirrors go-bk base58.Decode: invalid characters yield an empty result
+	n := new(big.Int)
+	radix := big.NewInt(58)
+	zeros := 0
+	lead := true
+	for i := 0; i < len(s); i++ {
+		idx := strings.IndexByte(b58Alphabet, s[i])
+		if idx < 0 {
+			return []byte{}
+		}
+		if lead && s[i] == '1' {
+			zeros++
+		} else {
+			lead = false
+		}
+		n.Mul(n, radix)
+		n.Add(n, big.NewInt(int64(idx)))
+	}
+	body := n.Bytes()
+	return append(make([]byte, zeros), body...)
+}
+
+func b58EncodeConcrete(b []byte) string {
+	n := new(big.Int).SetBytes(b)
+	radix := big.NewInt(58)
+	var out []byte
+	mod := new(big.Int)
+	for n.Sign() > 0 {
+		n.DivMod(n, radix, mod)
+		out = append(out, b58Alphabet[mod.Int64()])
+	}
+	for _, x := range b {
+		if x != 0 {
+			break
+		}
+		out = append(out, '1')
+	}
+	for i, j := 0, len(out)-1; i < j; i, j = i+1, j-1 {
+		out[i], out[j] = out[j], out[i]
+	}
+	return string(out)
+}
+
+func init() {
+	intrinsics["github.com/libsv/go-bk/base58.Encode"] = func(in *Interp, fr *frame, args []Value) Value {
+		cells := args[0].(Slice).A
+		conc := true
+		raw := make([]byte, len(cells))
+		for i, c := range cells {
+			t := c.(*Term)
+			if !t.IsConst() {
+				conc = false
+				break
+			}
+			raw[i] = byte(t.C)
+		}
+		if conc {
+			return Str{S: b58EncodeConcrete(raw)}
+		}
+		in.usedStubs["base58: Encode opaque+injective, Decode its exact inverse (real algorithm on concrete strings)"] = true
+		return Str{S: "<base58>", Opaque: true, B58: append([]Value{}, cells...)}
+	}
+	intrinsics["github.com/libsv/go-bk/base58.Decode"] = func(in *Interp, fr *frame, args []Value) Value {
+		s := args[0].(Str)
+		if s.B58 != nil {
+			return Slice{A: append([]Value{}, s.B58...)}
+		}
+		if s.IsConcrete() {
+			raw := b58DecodeConcrete(s.Concrete())
+			out := make([]Value, len(raw))
+			for i, b := range raw {
+				out[i] = in.tb.BVConst(8, uint64(b))
+			}
+			return Slice{A: out}
+		}
+		panic(engineAbort{"base58.Decode of a symbolic string that is not a base58.Encode result"})
+	}
+}
+
+// ---- encoding/hex: compact model (three range tests per character instead of the
+// 256-entry table lookup of the real implementation); validated natively by replay.
+func init() {
+	intrinsics["encoding/hex.EncodeToString"] = func(in *Interp, fr *frame, args []Value) Value {
+		return in.hexOfBytes(args[0].(Slice).A)
+	}
+	intrinsics["encoding/hex.DecodeString"] = func(in *Interp, fr *frame, args []Value) Value {
+		tb := in.tb
+		s := args[0].(Str)
+		if s.Opaque {
+			panic(engineAbort{"hex.DecodeString of opaque string"})
+		}
+		cs := in.strBytes(s)
+		errLen := in.globalErr(fr, "encoding/hex", "ErrLength")
+		nib := func(c *Term) (*Term, *Term) { // value, valid
+			dig := tb.And(tb.Cmp(OUle, tb.BVConst(8, '0'), c), tb.Cmp(OUle, c, tb.BVConst(8, '9')))
+			lo := tb.And(tb.Cmp(OUle, tb.BVConst(8, 'a'), c), tb.Cmp(OUle, c, tb.BVConst(8, 'f')))
+			up := tb.And(tb.Cmp(OUle, tb.BVConst(8, 'A'), c), tb.Cmp(OUle, c, tb.BVConst(8, 'F')))
+			v := tb.Ite(dig, tb.Bin(OSub, c, tb.BVConst(8, '0')), tb.Ite(lo, tb.Bin(OSub, c, tb.BVConst(8, 'a'-10)), tb.Bin(OSub, c, tb.BVConst(8, 'A'-10))))
+			return v, tb.Or(dig, tb.Or(lo, up))
+		}
+		out := []Value{}
+		for i := 0; i+1 < len(cs); i += 2 {
+			h, hv := nib(cs[i].(*Term))
+			l, lv := nib(cs[i+1].(*Term))
+			if !in.decide(fr, nil, hv) {
+				return Tuple{Slice{A: out}, in.newError(Str{S: "encoding/hex: invalid byte"}, nil)}
+			}
+			if !in.decide(fr, nil, lv) {
+				return Tuple{Slice{A: out}, in.newError(Str{S: "encoding/hex: invalid byte"}, nil)}
+			}
+			out = append(out, tb.Bin(OBor, tb.Bin(OShl, h, tb.BVConst(8, 4)), l))
+		}
+		if len(cs)%2 == 1 {
+			// the real function reports InvalidByteError for a bad last char, else ErrLength
+			_, v := nib(cs[len(cs)-1].(*Term))
+			if !in.decide(fr, nil, v) {
+				return Tuple{Slice{A: out}, in.newError(Str{S: "encoding/hex: invalid byte"}, nil)}
+			}
+			return Tuple{Slice{A: out}, errLen}
+		}
+		return Tuple{Slice{A: out}, Iface{}}
+	}
+}
+
+// globalErr loads an error-typed package-level variable (e.g. encoding/hex.ErrLength).
+func (in *Interp) globalErr(fr *frame, pkgPath, name string) Value {
+	for _, p := range in.prog.AllPackages() {
+		if p.Pkg.Path() == pkgPath {
+			if g, ok := p.Members[name].(*ssa.Global); ok {
+				return in.load(fr, fr.get(g))
+			}
+		}
+	}
+	panic(engineAbort{"global " + pkgPath + "." + name + " not found"})
 }
